@@ -1,6 +1,6 @@
 /-
-C08: the confirmation-count invariant along every history of a node whose producer set has 1..4 members
-(for 5 or more producers the reload path uses a smaller count: see `Props.C08.reload_quorum_*`).
+C08: the confirmation-count invariant along every history of a node (any producer count; before the repair
+a61f1aeb the reload path used a smaller count for 5 or more producers).
 -/
 import Aergo.Lemmas.Lib
 
@@ -68,9 +68,9 @@ theorem replay_CoverInv (q : Nat) (n : Node) (hs : StoreOk n) :
 
 theorem CoverInv_nil (q : Nat) : CoverInv q [] ([] : List CI) := trivial
 
-/-- `load`: the rebuilt window satisfies the invariant for the scratch status' count `confirmsRequired ls.cr`. -/
+/-- `load`: the rebuilt window satisfies the invariant for the status' own count `ls.cr`. -/
 theorem load_CoverInv (n : Node) (hs : StoreOk n) (ls : LS) (endNo : Nat) :
-    CoverInv (confirmsRequired ls.cr) [] (load n ls endNo).confirms ∧ (load n ls endNo).cr = ls.cr := by
+    CoverInv ls.cr [] (load n ls endNo).confirms ∧ (load n ls endNo).cr = ls.cr := by
   unfold load
   simp only
   split
@@ -87,22 +87,16 @@ theorem load_CoverInv (n : Node) (hs : StoreOk n) (ls : LS) (endNo : Nat) :
         · simp at ht
         · split at ht
           · simp at ht
-          · refine replay_CoverInv _ n hs _ _ (newLS n.genesis n.self ls.cr) tmp ?_ ?_ (CoverInv_nil _) ht
+          · refine replay_CoverInv _ n hs _ _ (newLSWithConfirms n.genesis n.self ls.cr) tmp ?_ ?_ (CoverInv_nil _) ht
             · split <;> simp_all
-            · simp [newLS]
+            · simp [newLSWithConfirms]
 
 theorem gc_CoverInv (q : Nat) (ls : LS) (bps : List String) (h : CoverInv q [] ls.confirms) :
     CoverInv q [] (gc ls bps).confirms ∧ (gc ls bps).cr = ls.cr := by
   unfold gc
   exact ⟨CoverInv_take q _ _ [] (CoverInv_dropOldLe q _ _ [] h), rfl⟩
 
-theorem cr_fix_small (k : Nat) (h1 : 1 ≤ k) (h4 : k ≤ 4) :
-    confirmsRequired (confirmsRequired k) = confirmsRequired k := by
-  rw [confirmsRequired_eq, confirmsRequired_eq]
-  have : k = 1 ∨ k = 2 ∨ k = 3 ∨ k = 4 := by omega
-  rcases this with h | h | h | h <;> subst h <;> decide
-
-/-- The node invariant for a producer set of k ∈ 1..4 members. -/
+/-- The node invariant for a producer set of k members. -/
 structure NodeInv (k : Nat) (n : Node) : Prop where
   store : StoreOk n
   gb : n.gbps.length = k
@@ -112,26 +106,25 @@ structure NodeInv (k : Nat) (n : Node) : Prop where
   lsW : CoverInv (confirmsRequired k) [] n.ls.confirms
   blW : CoverInv (confirmsRequired k) [] n.bl.confirms
 
-theorem restart_NodeInv (k : Nat) (h1 : 1 ≤ k) (h4 : k ≤ 4) (n : Node) (hs : StoreOk n) (hg : n.gbps.length = k) :
+theorem restart_NodeInv (k : Nat) (n : Node) (hs : StoreOk n) (hg : n.gbps.length = k) :
     NodeInv k (restart n) := by
-  have hfix := cr_fix_small k h1 h4
   unfold restart
   simp only
   refine ⟨hs, hg, hg, by simp [newLS, hg], ?_, by simp [newLS, CoverInv], ?_⟩
   · cases hsv : n.saved with
-    | none => simp [newLS, hg, hfix]
+    | none => simp [newLS, newLSWithConfirms, hg]
     | some v =>
       obtain ⟨p, lib, lpb⟩ := v
       simp only
       rw [(load_CoverInv n hs _ _).2]
-      simp [newLS, hg, hfix]
+      simp [newLS, newLSWithConfirms, hg]
   · cases hsv : n.saved with
-    | none => simp [newLS, CoverInv]
+    | none => simp [newLS, newLSWithConfirms, CoverInv]
     | some v =>
       obtain ⟨p, lib, lpb⟩ := v
       simp only
-      have := (load_CoverInv n hs { newLS n.genesis n.self (newLS n.genesis n.self n.gbps.length).cr with prpsd := p, lib := lib, lpb := lpb } n.latest).1
-      simpa [newLS, hg, hfix] using this
+      have := (load_CoverInv n hs { newLSWithConfirms n.genesis n.self (newLS n.genesis n.self n.gbps.length).cr with prpsd := p, lib := lib, lpb := lpb } n.latest).1
+      simpa [newLS, newLSWithConfirms, hg] using this
 
 theorem statusLoad_NodeInv (k : Nat) (n : Node) (h : NodeInv k n) : NodeInv k (statusLoad n) := by
   unfold statusLoad
@@ -139,9 +132,8 @@ theorem statusLoad_NodeInv (k : Nat) (n : Node) (h : NodeInv k n) : NodeInv k (s
   · exact h
   · exact ⟨h.store, h.gb, h.sz, h.blCr, h.blCr, h.blW, h.blW⟩
 
-theorem statusUpdate_NodeInv (k : Nat) (h1 : 1 ≤ k) (h4 : k ≤ 4) (n : Node) (b : Blk) (hint : String)
+theorem statusUpdate_NodeInv (k : Nat) (n : Node) (b : Blk) (hint : String)
     (hb : b.no ≠ 0) (h : NodeInv k n) : NodeInv k (statusUpdate n b hint) := by
-  have hfix := cr_fix_small k h1 h4
   have h' := statusLoad_NodeInv k n h
   unfold statusUpdate
   simp only
@@ -157,9 +149,13 @@ theorem statusUpdate_NodeInv (k : Nat) (h1 : 1 ≤ k) (h4 : k ≤ 4) (n : Node) 
       simp only
       cases lib with
       | none => exact (gc_CoverInv _ ls2 [] c1).1
-      | some l => exact (gc_CoverInv _ { ls2 with lib := l } [] c1).1
+      | some l =>
+        simp only
+        split
+        · exact (gc_CoverInv _ ls2 [] c1).1
+        · exact (gc_CoverInv _ { ls2 with lib := l } [] c1).1
   · obtain ⟨l1, l2⟩ := load_CoverInv m h'.store m.ls b.no
-    rw [h'.lsCr, hfix] at l1
+    rw [h'.lsCr] at l1
     refine ⟨h'.store, h'.gb, h'.gb, by simp [h'.gb], h'.blCr, ?_, h'.blW⟩
     exact (gc_CoverInv _ _ m.gbps l1).1
 
@@ -205,5 +201,46 @@ theorem apply_StoreOk (n : Node) (op : Op) (hv : op.Valid) (hs : StoreOk n) : St
           exact (hv x hx).2
         · exact hs.2 e he hne
   | restart => simp only [Node.apply, restart]; exact hs
+
+/-! ### the LIB number along one Update -/
+
+theorem load_lib (n : Node) (ls : LS) (e : Nat) : (load n ls e).lib = ls.lib ∧ (load n ls e).lpb = ls.lpb := by
+  unfold load
+  simp only
+  split
+  · exact ⟨rfl, rfl⟩
+  · split <;> exact ⟨rfl, rfl⟩
+
+/-- one Update on a loaded Status never lowers the LIB number and keeps the Status loaded (`updateLIB`'s guard, db1b9b14;
+the rollback branch does not touch `Lib`). -/
+theorem statusUpdate_lib_mono (n : Node) (b : Blk) (hint : String) (hd : n.done = true) :
+    (statusUpdate n b hint).done = true ∧ n.ls.lib.no ≤ (statusUpdate n b hint).ls.lib.no := by
+  have hl : statusLoad n = n := by simp [statusLoad, hd]
+  unfold statusUpdate
+  simp only [hl]
+  split
+  · split
+    · exact ⟨hd, Nat.le_refl _⟩
+    · have ha : (addConfirmInfo n.ls b).lib = n.ls.lib := by unfold addConfirmInfo; split <;> rfl
+      have hu : (update (addConfirmInfo n.ls b) hint).1.lib = n.ls.lib := by
+        rw [← ha]
+        unfold update
+        split
+        · rfl
+        · simp only; split <;> rfl
+      generalize update (addConfirmInfo n.ls b) hint = u at hu ⊢
+      obtain ⟨ls2, lib⟩ := u
+      simp only at hu ⊢
+      refine ⟨hd, ?_⟩
+      cases lib with
+      | none => simp [gc, hu]
+      | some l =>
+        simp only
+        split
+        · simp [gc, hu]
+        · rename_i hlt; simp only [gc]; rw [hu] at hlt; omega
+  · refine ⟨hd, ?_⟩
+    simp [gc, (load_lib n n.ls b.no).1]
+
 
 end Aergo.Lib
